@@ -1,30 +1,24 @@
 #!/bin/bash
-# Re-verify every stored seed against /repo HEAD (scratch worktrees), then run each against its property's check.
-# Writes /verif/seeded/SUMMARY.json.  /repo must be clean; nothing else may use /repo or /verif/.build meanwhile.
+# Re-verify every stored seed against /repo HEAD (scratch worktrees), then run each against its property's check
+# (scratch worktree + own build/output dirs: /repo, /verif/.build and /verif/evidence are not touched).
+# Writes /verif/seeded/SUMMARY.json.
 cd /verif
-ids=$(ls seeded | grep -E '^C[0-9]+-m[0-9]+$' | sort)
+ids=${*:-$(ls seeded | grep -E '^C[0-9]+-m[0-9]+$' | sort)}
 mkdir -p /tmp/sweep
-echo "$ids" | xargs -P 4 -I{} bash -c 'rm -rf /tmp/sweep/{}; cp -r /verif/seeded/{} /tmp/sweep/{}; tools/verify_seed.sh /tmp/sweep/{} {}.chk > /tmp/sweep/{}.verify 2>&1; rm -rf /verif/seeded/{}.chk'
-for id in $ids; do
-  if grep -q "KEPT" /tmp/sweep/$id.verify && ! grep -q "NOT KEPT" /tmp/sweep/$id.verify; then
-    tools/run_seed.sh $id > /tmp/sweep/$id.run 2>&1
-  else
-    echo "$id: STALE (does not verify against HEAD)" > /tmp/sweep/$id.run
-  fi
-  tail -3 /tmp/sweep/$id.verify | head -1; head -1 /tmp/sweep/$id.run
-done
+echo "$ids" | tr ' ' '\n' | xargs -P 3 -I{} bash -c 'rm -rf /tmp/sweep/{}; cp -r /verif/seeded/{} /tmp/sweep/{}; tools/verify_seed.sh /tmp/sweep/{} {}.chk > /tmp/sweep/{}.verify 2>&1; rm -rf /verif/seeded/{}.chk /tmp/sweep/{}
+  if grep -q "KEPT" /tmp/sweep/{}.verify && ! grep -q "NOT KEPT" /tmp/sweep/{}.verify; then tools/run_seed.sh {} > /tmp/sweep/{}.run 2>&1; else echo "{}: STALE (does not verify against HEAD)" > /tmp/sweep/{}.run; fi
+  tail -3 /tmp/sweep/{}.verify | head -1; head -1 /tmp/sweep/{}.run'
 python3 - <<'PY'
 import json,os,re
 out=[]
 for id in sorted(os.listdir('/verif/seeded')):
     if not re.match(r'^C\d+-m\d+$', id): continue
     v=open('/tmp/sweep/%s.verify'%id).read() if os.path.exists('/tmp/sweep/%s.verify'%id) else ''
-    r=open('/tmp/sweep/%s.run'%id).read() if os.path.exists('/tmp/sweep/%s.run'%id) else ''
     res=json.load(open('/verif/seeded/%s/result.json'%id)) if os.path.exists('/verif/seeded/%s/result.json'%id) else {}
     meta=json.load(open('/verif/seeded/%s/meta.json'%id))
-    out.append({"seed":id,"property":id.split('-')[0],"verifies_against_head":("KEPT" in v and "NOT KEPT" not in v),
+    out.append({"seed":id,"property":id.split('-')[0],"verifies_against_head":("KEPT" in v and "NOT KEPT" not in v) if v else None,
                 "detected_by_quick_check":res.get("detected"),"violation_classes":res.get("violation_classes"),
-                "summary":meta.get("summary","")[:200]})
+                "mech_drift_lines":res.get("mech_drift_lines"),"summary":meta.get("summary","")[:200]})
 json.dump(out,open('/verif/seeded/SUMMARY.json','w'),indent=1)
 print(sum(1 for o in out if o["detected_by_quick_check"]), "of", len(out), "detected;", [o["seed"] for o in out if not o["detected_by_quick_check"]])
 PY
